@@ -23,27 +23,33 @@ NWORKERS = int(os.environ.get('VERIF_WORKERS', '16'))
 
 # ---------------------------------------------------------------- solving
 
+_POISONED = False
+
+
 def solve(assertions, timeout_ms, want_smt2=False):
-    """Decide satisfiability of the conjunction. Returns dict(verdict, ms, model, smt2)."""
-    s = z3.Solver()
-    s.set('timeout', int(timeout_ms))
-    for a in assertions:
-        s.add(a)
+    """Decide satisfiability of the conjunction. Returns dict(verdict, ms, model, smt2).
+    Any solver exception (memory limit, internal error) is an inconclusive answer; the worker is then recycled."""
+    global _POISONED
     t0 = time.time()
     try:
+        s = z3.Solver()
+        s.set('timeout', int(timeout_ms))
+        for a in assertions:
+            s.add(a)
         r = s.check()
-    except z3.Z3Exception as e:  # solver error = inconclusive
+        ms = int((time.time() - t0) * 1000)
+        out = {'verdict': str(r), 'ms': ms, 'model': None, 'smt2': None, 'reason': None}
+        if r == z3.sat:
+            out['model'] = s.model()
+        elif r == z3.unknown:
+            out['reason'] = s.reason_unknown()
+        if want_smt2 or r == z3.sat:
+            out['smt2'] = '(set-logic ALL)\n' + s.to_smt2()
+        return out
+    except (z3.Z3Exception, MemoryError) as e:  # solver error = inconclusive
+        _POISONED = True
         return {'verdict': 'unknown', 'ms': int((time.time() - t0) * 1000), 'model': None,
-                'reason': 'z3 exception: %s' % e, 'smt2': None}
-    ms = int((time.time() - t0) * 1000)
-    out = {'verdict': str(r), 'ms': ms, 'model': None, 'smt2': None, 'reason': None}
-    if r == z3.sat:
-        out['model'] = s.model()
-    elif r == z3.unknown:
-        out['reason'] = s.reason_unknown()
-    if want_smt2 or r == z3.sat:
-        out['smt2'] = '(set-logic ALL)\n' + s.to_smt2()
-    return out
+                'reason': 'solver exception: %s' % str(e)[:200], 'smt2': None}
 
 
 def solve_ladder(build, timeout_ms):
@@ -160,6 +166,12 @@ def _work(item):
         return _CHECK.check_item(item)
     except bridge_mod.BridgeError as e:
         return [{'key': repr(item)[:200], 'verdict': 'machinery', 'detail': 'bridge error: %s' % e}]
+    except (z3.Z3Exception, MemoryError) as e:
+        global _POISONED
+        _POISONED = True
+        return [{'key': repr(item)[:200], 'verdict': 'unknown', 'detail': 'solver exception while building the VC: %s' % str(e)[:200],
+                 'family': item.get('family'), 'input': item.get('program') or item.get('label') or repr(item)[:200],
+                 'twin': item.get('twin', False)}]
     except Exception as e:
         return [{'key': repr(item)[:200], 'verdict': 'machinery',
                  'detail': 'exception: %s\n%s' % (e, traceback.format_exc()[-1500:])}]
@@ -195,7 +207,9 @@ def _worker_main(check_module_name, conn):
             res = [{'key': repr(item)[:200], 'verdict': 'unknown', 'detail': 'out of memory in worker',
                     'family': item.get('family'), 'input': item.get('program') or repr(item)[:200],
                     'twin': item.get('twin', False)}]
-        conn.send((idx, res))
+        conn.send((idx, res, _POISONED))
+        if _POISONED:
+            return
 
 
 def run_pool(check_module_name, items, nworkers=None, hard_timeout=None):
@@ -247,10 +261,20 @@ def run_pool(check_module_name, items, nworkers=None, hard_timeout=None):
                 continue
             if w['conn'] in ready:
                 try:
-                    idx, res = w['conn'].recv()
+                    idx, res, poisoned = w['conn'].recv()
+                    for r_ in res:
+                        r_['_item'] = idx
                     out.extend(res)
                     w['item'] = None
                     pending -= 1
+                    if poisoned:      # the solver threw in this worker: recycle it
+                        try:
+                            w['proc'].join(timeout=2)
+                            if w['proc'].is_alive():
+                                w['proc'].kill()
+                        except Exception:
+                            pass
+                        workers[i] = spawn()
                     continue
                 except (EOFError, OSError):
                     out.extend(lost(w, 'worker died (memory limit?)'))
@@ -334,7 +358,26 @@ def run_check(check, tier, seed):
     twins = check.twins(tier, seed)
     for t in twins:
         t['twin'] = True
-    results = run_pool(check.__name__, items + twins, hard_timeout=getattr(check, 'HARD_TIMEOUT', None))
+    all_items = items + twins
+    results = run_pool(check.__name__, all_items, hard_timeout=getattr(check, 'HARD_TIMEOUT', None))
+    # second pass: items with an `unknown` solver answer are re-run once with a 4x larger per-query timeout
+    # (solver timeouts depend on machine load); their earlier results are replaced
+    retry_idx = sorted(set(r['_item'] for r in results if r.get('verdict') == 'unknown' and '_item' in r
+                           and not all_items[r['_item']].get('twin') and not all_items[r['_item']].get('no_retry')))
+    if len(retry_idx) > int(os.environ.get('VERIF_MAX_RETRY', '60')):
+        retry_idx = retry_idx[:int(os.environ.get('VERIF_MAX_RETRY', '60'))]
+    retried = 0
+    if retry_idx and os.environ.get('VERIF_NO_RETRY') is None:
+        base_to = getattr(check, 'DEFAULT_TIMEOUT_MS', 5000)
+        again = []
+        for i in retry_idx:
+            it = dict(all_items[i])
+            it['timeout_ms'] = 4 * int(it.get('timeout_ms', base_to))
+            again.append(it)
+        res2 = run_pool(check.__name__, again, nworkers=max(2, NWORKERS // 2), hard_timeout=2 * (getattr(check, 'HARD_TIMEOUT', None) or HARD_TIMEOUT))
+        keep = [r for r in results if r.get('_item') not in set(retry_idx)]
+        results = keep + res2
+        retried = len(again)
 
     twin_results = [r for r in results if r.get('twin')]
     results = [r for r in results if not r.get('twin')]
@@ -423,6 +466,7 @@ def run_check(check, tier, seed):
         'non_reproducing': len(nonrepro),
         'counterexamples_not_replayed': unreplayed,
         'machinery_failures': len(machinery),
+        'items_retried_with_longer_timeout': retried,
         'trusted_base': desc.get('trusted_base', []),
         'checker_cmd': './check %s --tier %s' % (prop, tier),
         'explanation': desc.get('explanation', ''),
